@@ -264,11 +264,16 @@ func c19CliSelect(c c19Case) *Violation {
 		table[i] = f
 	}
 	args := []string{"select", "--no-cache"}
+	long := len(c.Table)%2 == 1 // options in their long spelling for every other table size
 	if c.Invert {
-		args = append(args, "-v")
+		args = append(args, map[bool]string{false: "-v", true: "--invert-match"}[long])
 	}
 	if c.Strand != "" {
-		args = append(args, "-s", c.Strand)
+		if long {
+			args = append(args, "--strand", c.Strand)
+		} else {
+			args = append(args, "-s", c.Strand)
+		}
 	}
 	args = append(args, c.Sels...)
 	what := fmt.Sprintf("gts %q on %s", args, tableString(featsToGts(table)))
